@@ -19,7 +19,7 @@ func init() {
 	register(&mon.Spec{
 		ID:    "C06",
 		Level: "exploration",
-		Rule: "scripts against p9p.ServeConn with a scripted Handler over an in-memory connection (raw 9P client built on the reference codec): results are small or of exactly the largest size that fits msize (error text of msize-9..msize-12 bytes, Rread data of msize-11..msize-14); each script mixes, in PRNG order, new requests of every message kind (T-kinds, R-kinds and Tversion sent as requests; tags incl. 0, 1, 0xFFFE, NOTAG), bursts of pipelined requests (depth up to 64), " +
+		Rule: "scripts against p9p.ServeConn with a scripted Handler over an in-memory connection (raw 9P client built on the reference codec): results are small or of exactly the largest size that fits msize (error text of msize-9..msize-12 bytes, Rread data of msize-11..msize-14); every second script runs on a connection that buffers 128 bytes, where a duplicate can arrive while a bulky reply occupies the server's writer (the client pauses reading); the message held by a parked handler is re-compared with what was sent when the handler is released; each script mixes, in PRNG order, new requests of every message kind (T-kinds, R-kinds and Tversion sent as requests; tags incl. 0, 1, 0xFFFE, NOTAG), bursts of pipelined requests (depth up to 64), " +
 			"duplicates of outstanding tags at every position of the window, handler completions in PRNG order (singly and in groups released together), handlers that answer instantly, results of every R-kind and errors in three flavours (plain error, MessageRerror value, *MessageRerror), and immediate legal reuse of a tag after its reply was read. " +
 			"After every stimulus the harness waits for quiescence (goroutine states) and compares what happened with a conservation monitor keyed by (tag, epoch): handler invoked exactly once per dispatched request with the message sent (Tread count clamped to msize-11), exactly one reply per request carrying its tag and exactly the handler's result / error text, " +
 			"duplicates answered with 'duplicate tag' without dispatch and without disturbing the original, no stray replies. non-trivial = >= 2 handlers in flight with completion order != arrival order, or a duplicate-tag probe; distinct by schedule hash",
@@ -32,7 +32,7 @@ func init() {
 		Shards:    shards(8, 16),
 		Timeout:   timeouts(3*time.Minute, 40*time.Minute),
 		MinEvals:  100,
-		Required:  []string{"requests_dispatched", "replies_checked", "duplicate_probes", "inversions", "error_replies", "instant_completions", "tag_reuses", "serve_returned", "duplicate_bursts", "boundary_size_results"},
+		Required:  []string{"requests_dispatched", "replies_checked", "duplicate_probes", "inversions", "error_replies", "instant_completions", "tag_reuses", "serve_returned", "duplicate_bursts", "boundary_size_results", "held_messages_rechecked", "duplicate_while_writer_busy"},
 		Run:       runC06,
 	})
 }
@@ -158,9 +158,16 @@ func runC06Script(w *mon.W, no int) {
 	sh := &scriptHandler{}
 	instantUIDs := map[uint32]bool{}
 	var imu sync.Mutex
+	bulk := map[uint32]bool{}
+	bulkData := func(uid int) []byte {
+		return []byte(fmt.Sprintf("bulk-%d-", uid) + strings.Repeat("b", 700))
+	}
 	sh.instant = func(msg p9p.Message) (p9p.Message, error, bool) {
 		imu.Lock()
 		defer imu.Unlock()
+		if tc, ok := msg.(p9p.MessageTclunk); ok && bulk[uint32(tc.Fid)] {
+			return p9p.MessageRread{Data: bulkData(int(tc.Fid))}, nil, true
+		}
 		if tc, ok := msg.(p9p.MessageTclunk); ok && instantUIDs[uint32(tc.Fid)] {
 			return p9p.MessageRwrite{Count: uint32(tc.Fid)}, nil, true
 		}
@@ -168,7 +175,11 @@ func runC06Script(w *mon.W, no int) {
 	}
 	var trace []string
 	w.Case("C06 script #%d", no)
-	h, err := newSrvH(sh, msize, 1<<20)
+	bufCap := 1 << 20
+	if no%2 == 1 {
+		bufCap = 128 // a connection that buffers little: a bulky reply occupies the server's writer while the client does not read
+	}
+	h, err := newSrvH(sh, msize, bufCap)
 	if err != nil {
 		w.Inconclusive("handshake failed: %v", err)
 		h.close()
@@ -447,6 +458,56 @@ func runC06Script(w *mon.W, no int) {
 			if !checkReplies(nil, want) {
 				return
 			}
+		case op == 6 && len(parked) > 0 && s%3 == 0: // duplicate of an outstanding tag arriving while the server's writer is busy
+			orig := parked[w.Rng.Intn(len(parked))]
+			// one bulky instant reply occupies the writer (the client does not read for the moment)
+			h.pauseReads()
+			uid++
+			bulkUID := uid
+			imu.Lock()
+			instantUIDs[uint32(bulkUID)] = true
+			bulk[uint32(bulkUID)] = true
+			imu.Unlock()
+			btag := freeTag()
+			brq := &c06req{uid: bulkUID, tag: btag, order: arrivals}
+			arrivals++
+			brq.sent = &p9p.Fcall{Type: p9p.Tclunk, Tag: btag, Message: p9p.MessageTclunk{Fid: p9p.Fid(bulkUID)}}
+			brq.expect = brq.sent.Message
+			brq.result = &hResult{msg: p9p.MessageRread{Data: bulkData(bulkUID)}}
+			outstanding[btag] = brq
+			trace = append(trace, fmt.Sprintf("client stops reading; send Tclunk tag=%d uid=%d (bulky instant reply)", btag, bulkUID))
+			h.send(brq.sent)
+			if !settle() {
+				h.resumeReads()
+				w.Inconclusive("watchdog")
+				return
+			}
+			uid++
+			m := requestWithUID(g, kinds[w.Rng.Intn(len(kinds))], uid)
+			fc := &p9p.Fcall{Type: m.Type(), Tag: orig.tag, Message: m}
+			trace = append(trace, fmt.Sprintf("send DUPLICATE(writer busy) %s tag=%d uid=%d", fc.Type, orig.tag, uid))
+			h.send(fc)
+			if !settle() {
+				h.resumeReads()
+				w.Inconclusive("watchdog")
+				return
+			}
+			h.resumeReads()
+			trace = append(trace, "client reads again")
+			if !settle() {
+				w.Inconclusive("watchdog")
+				return
+			}
+			w.Count("duplicate_probes", 1)
+			w.Count("duplicate_while_writer_busy", 1)
+			nontrivial = true
+			if !absorb([]*c06req{brq}) {
+				return
+			}
+			dupReply := &p9p.Fcall{Type: p9p.Rerror, Tag: orig.tag, Message: p9p.MessageRerror{Ename: enameOf(p9p.ErrDuptag)}}
+			if !checkReplies([]*c06req{brq}, []*p9p.Fcall{dupReply}) {
+				return
+			}
 		case op == 5 || op == 6: // duplicate of an outstanding tag
 			if len(parked) == 0 {
 				continue
@@ -536,6 +597,13 @@ func runC06Script(w *mon.W, no int) {
 				idx := w.Rng.Intn(len(parked))
 				rq := parked[idx]
 				parked = append(parked[:idx], parked[idx+1:]...)
+				// the message handed to the handler must still be the one that was sent, however
+				// many frames the server has read since
+				w.Count("held_messages_rechecked", 1)
+				if !refcodec.EqMsg(rq.inv.msg, rq.expect) {
+					bad("handler-message-changed", "the message handed to the handler of request uid=%d changed while the handler was running: now %v, sent %s", rq.uid, rq.inv.msg, refcodec.Describe(rq.sent))
+					return
+				}
 				r := result(rq.uid)
 				rq.result = &r
 				trace = append(trace, fmt.Sprintf("complete uid=%d tag=%d", rq.uid, rq.tag))
